@@ -111,7 +111,9 @@ class TaskSet : public TaskSetBase {
       return;
     }
     DISPENSO_VERIF_HOOK("ts.guard", this, 0, 2);
-    if (outstandingTaskCount_.load(std::memory_order_relaxed) > taskSetLoadFactor_) {
+    if (outstandingTaskCount_.load(std::memory_order_relaxed) > taskSetLoadFactor_ &&
+        detail::PerPoolPerThreadInfo::canInlineSchedule()) {
+      detail::InlineDepthGuard depthGuard;
       DISPENSO_VERIF_HOOK("ts.inline", this, 0, 0);
       f();
     } else {
